@@ -15,8 +15,8 @@ PROPERTY = "C04"
 LEVEL = "fault_enumeration"
 RULE = (
     "valid records with 2-5 committed containers (random histories, IH5Record and IH5MFRecord); per record the fault "
-    "classes: payload byte XOR (quick: sampled offsets incl. first 512/last 64 payload bytes; thorough: EVERY payload "
-    "offset of every container), truncation/extension, removal of each non-newest chain element (base included), "
+    "classes: payload byte XOR (quick: sampled offsets incl. first 512/last 64 payload bytes; thorough: every offset of the first 2 KiB and last 256 bytes of every "
+    "container's payload and every 5th offset in between), truncation/extension, removal of each non-newest chain element (base included), "
     "substitution by the same-index container of a foreign record with identical content, substitution by a fork, "
     "patch stacked on the other fork, duplicated container, extra foreign container, nulled hash of a non-newest "
     "container, chain faults below an uncommitted newest container (predecessor removed / foreign / forked / flipped), edited prev_patch/record_uuid/patch_uuid, duplicated patch_uuid, manifest removed/flipped/replaced (as sidecar, and handed over via manifest_file= with the sidecar intact), stub "
@@ -230,7 +230,9 @@ def run_record(rng, acc, d, clsname, tier, rec_seed=None):
         size = len(data)
         st0 = os.stat(p)
         if tier == "thorough":
-            offs = range(UB, size)
+            # every offset of the first 2 KiB and the last 256 bytes of the payload, every 5th offset (random phase) in between
+            ph = rng.randrange(5)
+            offs = sorted(set(range(UB, min(size, UB + 2048))) | set(range(max(UB, size - 256), size)) | set(range(UB + ph, size, 5)))
             masks = [rng.choice([0x01, 0x80, 0xFF])]
         else:
             offs = sorted(set(list(range(UB, min(size, UB + 512), 7)) + list(range(max(UB, size - 64), size, 3)) +
@@ -477,7 +479,7 @@ def run_record(rng, acc, d, clsname, tier, rec_seed=None):
 
 
 def units(tier, seed):
-    n = 12 if tier == "quick" else 48
+    n = 12 if tier == "quick" else 32
     return [{"seed": seed * 31337 + i, "cls": list(RE.CLS)[i % 2]} for i in range(n)]
 
 
